@@ -17,11 +17,13 @@ Definition is_branch (i : instr) : bool := match i_body i with IBranch _ _ _ => 
 Definition keys (m : list (nat * nat)) : list nat := map fst m.
 Definition targets (m : list (nat * nat)) : list nat := map snd m.
 
-Record Inv (m : list (nat * nat)) (fo fp : frame) : Prop := {
+(** [D]: registers whose value in the optimised run is unknown (loads removed from other blocks, or from an earlier
+    execution of this block); they are never read before they are written again *)
+Record Inv (m : list (nat * nat)) (D : list nat) (fo fp : frame) : Prop := {
   inv_vars : vars fp = vars fo;
   inv_fargs : fargs fp = fargs fo;
-  inv_same : forall r, ~ In r (keys m) -> rlookup r (regs fp) = rlookup r (regs fo);
-  inv_fwd : forall r, In r (keys m) -> rlookup r (regs fo) = rlookup (subst_ref m r) (regs fo) /\ ~ In (subst_ref m r) (keys m) }.
+  inv_same : forall r, ~ In r (keys m) -> ~ In r D -> rlookup r (regs fp) = rlookup r (regs fo);
+  inv_fwd : forall r, In r (keys m) -> rlookup r (regs fo) = rlookup (subst_ref m r) (regs fo) /\ ~ In (subst_ref m r) (keys m) /\ ~ In (subst_ref m r) D }.
 
 Lemma subst_ref_notin m r : ~ In r (keys m) -> subst_ref m r = r.
 Proof.
@@ -34,47 +36,50 @@ Proof.
   destruct (Nat.eqb_spec k r); [left; reflexivity|]. right. apply IH. destruct H; [contradiction|assumption].
 Qed.
 
-Lemma subst_lookup m fo fp r : Inv m fo fp -> rlookup (subst_ref m r) (regs fp) = rlookup r (regs fo).
+Definition readable (m : list (nat * nat)) (D : list nat) (r : nat) : Prop := In r (keys m) \/ ~ In r D.
+Lemma subst_lookup m D fo fp r : Inv m D fo fp -> readable m D r -> rlookup (subst_ref m r) (regs fp) = rlookup r (regs fo).
 Proof.
-  intros I. destruct (in_dec Nat.eq_dec r (keys m)) as [Hin|Hn].
-  - destruct (inv_fwd _ _ _ I r Hin) as [H1 H2]. rewrite (inv_same _ _ _ I _ H2). symmetry. exact H1.
-  - rewrite (subst_ref_notin _ _ Hn). apply (inv_same _ _ _ I _ Hn).
+  intros I Hr. destruct (in_dec Nat.eq_dec r (keys m)) as [Hin|Hn].
+  - destruct (inv_fwd _ _ _ _ I r Hin) as (H1 & H2 & H3). rewrite (inv_same _ _ _ _ I _ H2 H3). symmetry. exact H1.
+  - rewrite (subst_ref_notin _ _ Hn). destruct Hr as [Hr|Hr]; [contradiction|]. apply (inv_same _ _ _ _ I _ Hn Hr).
 Qed.
-Lemma rget_subst m fo fp r : Inv m fo fp -> rget fp (subst_ref m r) = rget fo r.
-Proof. intros I. unfold rget. rewrite (subst_lookup m fo fp r I). reflexivity. Qed.
+Lemma rget_subst m D fo fp r : Inv m D fo fp -> readable m D r -> rget fp (subst_ref m r) = rget fo r.
+Proof. intros I Hr. unfold rget. rewrite (subst_lookup m D fo fp r I Hr). reflexivity. Qed.
 
-Lemma Inv_rset m fo fp ref w : Inv m fo fp -> ~ In ref (keys m) -> ~ In ref (targets m) -> Inv m (rset fo ref w) (rset fp ref w).
+Lemma Inv_rset m D fo fp ref w : Inv m D fo fp -> ~ In ref (keys m) -> ~ In ref (targets m) -> Inv m D (rset fo ref w) (rset fp ref w).
 Proof.
   intros I Hk Ht. constructor; cbn; try apply I.
-  - intros r Hr. destruct (Nat.eq_dec r ref) as [->|Hne]; [rewrite !rlookup_update_same; reflexivity|].
-    rewrite !rlookup_update_other by exact Hne. apply (inv_same _ _ _ I _ Hr).
-  - intros r Hr. destruct (inv_fwd _ _ _ I r Hr) as [H1 H2]. split; [|exact H2].
+  - intros r Hr HrD. destruct (Nat.eq_dec r ref) as [->|Hne]; [rewrite !rlookup_update_same; reflexivity|].
+    rewrite !rlookup_update_other by exact Hne. apply (inv_same _ _ _ _ I _ Hr HrD).
+  - intros r Hr. destruct (inv_fwd _ _ _ _ I r Hr) as [H1 H2]. split; [|exact H2].
     assert (r <> ref) by (intro; subst; contradiction).
     assert (subst_ref m r <> ref) by (intro E; apply Ht; rewrite <- E; apply subst_ref_in; exact Hr).
     rewrite !rlookup_update_other by assumption. exact H1.
 Qed.
-Lemma Inv_mem m fo fp V A : Inv m fo fp ->
-  Inv m {| regs := regs fo; vars := V; fargs := A |} {| regs := regs fp; vars := V; fargs := A |}.
+Lemma Inv_mem m D fo fp V A : Inv m D fo fp ->
+  Inv m D {| regs := regs fo; vars := V; fargs := A |} {| regs := regs fp; vars := V; fargs := A |}.
 Proof. intros I. constructor; cbn; try reflexivity; apply I. Qed.
 
-Lemma map_res_subst m fo fp (I : Inv m fo fp) : forall l,
+Lemma map_res_subst m D fo fp (I : Inv m D fo fp) : forall l, (forall r, In r l -> readable m D r) ->
   map_res (fun rv => match rv with VInt r => rget fp (Z.to_nat r) | _ => Unmodelled end) (map (fun r => VInt (Z.of_nat r)) (map (subst_ref m) l)) =
   map_res (fun rv => match rv with VInt r => rget fo (Z.to_nat r) | _ => Unmodelled end) (map (fun r => VInt (Z.of_nat r)) l).
-Proof. induction l as [|a l IH]; cbn; [reflexivity|]. rewrite !Nat2Z.id, (rget_subst m fo fp a I), IH. reflexivity. Qed.
+Proof. induction l as [|a l IH]; cbn; intros Hl; [reflexivity|]. rewrite !Nat2Z.id, (rget_subst m D fo fp a I (Hl a (or_introl eq_refl))), IH; [reflexivity|]. intros r Hr. apply Hl. right. exact Hr. Qed.
 
 Ltac inv_done I Hk Ht :=
   first [ apply Inv_rset; [exact I|exact Hk|exact Ht]
-        | apply (Inv_mem _ (rset _ _ _) (rset _ _ _)); apply Inv_rset; [exact I|exact Hk|exact Ht] ].
+        | apply (Inv_mem _ _ (rset _ _ _) (rset _ _ _)); apply Inv_rset; [exact I|exact Hk|exact Ht] ].
 
-Lemma step_subst F F' pc pc' m fo fp vs i fo1 vs1 :
-  Inv m fo fp -> is_branch i = false -> ~ In (i_ref i) (keys m) -> ~ In (i_ref i) (targets m) ->
+Lemma step_subst F F' pc pc' m D fo fp vs i fo1 vs1 :
+  Inv m D fo fp -> is_branch i = false -> ~ In (i_ref i) (keys m) -> ~ In (i_ref i) (targets m) ->
+  (forall o, In o (operands (i_body i)) -> readable m D o) ->
   step F pc fo vs i = StNext (S pc) fo1 vs1 ->
-  exists fp1, step F' pc' fp vs (subst_instr m i) = StNext (S pc') fp1 vs1 /\ Inv m fo1 fp1.
+  exists fp1, step F' pc' fp vs (subst_instr m i) = StNext (S pc') fp1 vs1 /\ Inv m D fo1 fp1.
 Proof.
-  intros I Hb Hk Ht H. unfold is_branch in Hb. unfold step in *. cbn [subst_instr i_body i_ref i_ty].
+  intros I Hb Hk Ht Hops H. unfold is_branch in Hb. unfold step in *. cbn [subst_instr i_body i_ref i_ty].
   destruct (i_body i) as [sc vn|sc vn src|k arr idx|arr idx src|k arr idx src|o mem|o mem src|a b ix|o a b|pred t f|rv|fn args|name|src|vals|opc] eqn:Eb;
-    cbn [subst_body]; try discriminate;
-    rewrite ?(rget_subst m fo fp _ I), ?(inv_vars _ _ _ I), ?(inv_fargs _ _ _ I), ?(map_res_subst m fo fp I).
+    cbn [subst_body]; try discriminate; cbn [operands opt_list] in Hops;
+    repeat match goal with |- context [rget fp (subst_ref m ?o)] => rewrite (rget_subst m D fo fp o I) by (apply Hops; cbn; auto) end;
+    rewrite ?(inv_vars _ _ _ _ I), ?(inv_fargs _ _ _ _ I), ?(map_res_subst m D fo fp I _ Hops).
   - (* load *)
     destruct sc, vn as [x|n]; try discriminate.
     + destruct (slookup x (globals vs)); [|discriminate]. inversion H; subst. eexists; split; [reflexivity|inv_done I Hk Ht].
@@ -84,11 +89,11 @@ Proof.
     destruct (rget fo src) as [w| |]; cbn [lift] in *; try discriminate.
     destruct sc, vn as [x|n]; try discriminate.
     + inversion H; subst. eexists; split; [reflexivity|inv_done I Hk Ht].
-    + cbn [rset fargs vars regs] in *. rewrite ?(inv_vars _ _ _ I), ?(inv_fargs _ _ _ I).
+    + cbn [rset fargs vars regs] in *. rewrite ?(inv_vars _ _ _ _ I), ?(inv_fargs _ _ _ _ I).
       destruct (Nat.ltb n (length (fargs fo))); [|discriminate]. inversion H; subst. eexists; split; [reflexivity|].
-      apply (Inv_mem _ (rset fo (i_ref i) w) (rset fp (i_ref i) w)). inv_done I Hk Ht.
-    + cbn [rset fargs vars regs] in *. rewrite ?(inv_vars _ _ _ I), ?(inv_fargs _ _ _ I). inversion H; subst. eexists; split; [reflexivity|].
-      apply (Inv_mem _ (rset fo (i_ref i) w) (rset fp (i_ref i) w)). inv_done I Hk Ht.
+      apply (Inv_mem _ _ (rset fo (i_ref i) w) (rset fp (i_ref i) w)). inv_done I Hk Ht.
+    + cbn [rset fargs vars regs] in *. rewrite ?(inv_vars _ _ _ _ I), ?(inv_fargs _ _ _ _ I). inversion H; subst. eexists; split; [reflexivity|].
+      apply (Inv_mem _ _ (rset fo (i_ref i) w) (rset fp (i_ref i) w)). inv_done I Hk Ht.
   - (* indexed load *)
     destruct (rget fo arr) as [av| |]; cbn [lift] in *; try discriminate. destruct (rget fo idx) as [iv| |]; cbn [lift] in *; try discriminate.
     destruct (py_getitem (hp vs) av iv) as [w| |]; cbn [lift] in *; try discriminate. inversion H; subst. eexists; split; [reflexivity|inv_done I Hk Ht].
@@ -122,8 +127,8 @@ Proof.
   - (* call *) match type of H with context [lift ?x _] => destruct x; cbn [lift] in H; discriminate end.
   - (* new variable *)
     destruct (create_instance (i_ty i) (hp vs)) as [h1 w]. inversion H; subst. eexists; split; [reflexivity|].
-    cbn [rset regs vars fargs]. rewrite ?(inv_vars _ _ _ I), ?(inv_fargs _ _ _ I).
-    apply (Inv_rset m {| regs := regs fo; vars := supdate name w (vars fo); fargs := fargs fo |} {| regs := regs fp; vars := supdate name w (vars fo); fargs := fargs fo |});
+    cbn [rset regs vars fargs]. rewrite ?(inv_vars _ _ _ _ I), ?(inv_fargs _ _ _ _ I).
+    apply (Inv_rset m D {| regs := regs fo; vars := supdate name w (vars fo); fargs := fargs fo |} {| regs := regs fp; vars := supdate name w (vars fo); fargs := fargs fo |});
       [apply Inv_mem; exact I|exact Hk|exact Ht].
   - (* cast *)
     destruct (rget fo src) as [w| |]; cbn [lift] in *; try discriminate. destruct (negb (ty_is_primitive (i_ty i))); [discriminate|].
@@ -192,13 +197,13 @@ Proof.
   destruct (find (fun p => Nat.eqb (fst p) r) m) as [p|] eqn:Ef; [|reflexivity].
   exfalso. apply H. apply find_some in Ef as [H1 H2]. apply Nat.eqb_eq in H2. rewrite <- H2. apply in_map. exact H1.
 Qed.
-Lemma resolve_one m fo fp src : Inv m fo fp -> resolve (length m) m src = subst_ref m src.
+Lemma resolve_one m D fo fp src : Inv m D fo fp -> resolve (length m) m src = subst_ref m src.
 Proof.
   intros I. destruct (in_dec Nat.eq_dec src (keys m)) as [Hin|Hn].
   - destruct m as [|e m']; [destruct Hin|]. cbn [length resolve]. unfold subst_ref.
     destruct (find (fun p => Nat.eqb (fst p) src) (e :: m')) as [p|] eqn:Ef; [|reflexivity].
     assert (Hp : snd p = subst_ref (e :: m') src) by (unfold subst_ref; rewrite Ef; reflexivity).
-    destruct (inv_fwd _ _ _ I src Hin) as [_ Hnot]. rewrite <- Hp in Hnot. apply resolve_notkey. exact Hnot.
+    destruct (inv_fwd _ _ _ _ I src Hin) as (_ & Hnot & _). rewrite <- Hp in Hnot. apply resolve_notkey. exact Hnot.
   - rewrite (subst_ref_notin _ _ Hn). apply resolve_notkey. exact Hn.
 Qed.
 
@@ -243,88 +248,6 @@ Fixpoint scopes_agree (prev : option instr) (code : list instr) : Prop :=
       end /\ scopes_agree (Some i) r
   end.
 
-Lemma las_code_sound F F' : forall code prev m pc pc' fo fp vs fo1 vs1,
-  sruns F pc code fo vs fo1 vs1 -> Inv m fo fp ->
-  forallb (fun i => negb (is_branch i)) code = true -> NoDup (map i_ref code) -> fresh_for code m ->
-  operands_earlier code -> scopes_agree prev code ->
-  (forall p, prev = Some p -> (exists pc0 fo0 vs0, step F pc0 fo0 vs0 p = StNext (S pc0) fo vs) /\
-                              (forall sc v src, i_body p = IStore sc v src -> src <> i_ref p /\ ~ In src (map i_ref code))) ->
-  exists fp1, sruns F' pc' (las_code prev code m) fp vs fp1 vs1 /\ Inv (las_map prev code m) fo1 fp1.
-Proof.
-  induction code as [|i r IH]; intros prev m pc pc' fo fp vs fo1 vs1 Hrun I Hnb Hnd Hfresh Hop Hsc Hprev.
-  - inversion Hrun; subst. exists fp. split; [constructor|exact I].
-  - inversion Hrun as [|? ? ? ? ? fo' vs' ? ? Hstep Hrest]; subst. cbn [forallb] in Hnb. apply andb_prop in Hnb as [Hnbi Hnbr]. apply negb_true_iff in Hnbi.
-    inversion Hnd as [|? ? Hni Hndr]; subst. destruct Hop as [Hopi Hopr]. cbn [scopes_agree] in Hsc. destruct Hsc as [Hsci Hscr].
-    destruct (Hfresh i (or_introl eq_refl)) as [Hk Ht].
-    assert (Hprev' : forall p, Some i = Some p -> (exists pc0 fo0 vs0, step F pc0 fo0 vs0 p = StNext (S pc0) fo' vs') /\
-                                   (forall sc v src, i_body p = IStore sc v src -> src <> i_ref p /\ ~ In src (map i_ref r))).
-    { intros p Hp. inversion Hp; subst p. split; [exists pc, fo, vs; exact Hstep|].
-      intros sc v src Hb. assert (Ho : In src (operands (i_body i))) by (rewrite Hb; left; reflexivity).
-      specialize (Hopi src Ho). cbn [map] in Hopi. split; [intro E; apply Hopi; left; congruence|intro E; apply Hopi; right; exact E]. }
-    cbn [las_code las_map]. destruct (forwardable prev i) as [src|] eqn:Efw.
-    + (* a forwarded load: the optimised code does nothing *)
-      unfold forwardable in Efw. destruct (i_body i) as [sc v| | | | | | | | | | | | | | | ] eqn:Eb; try discriminate.
-      destruct prev as [p|]; [|discriminate]. destruct (i_body p) as [|sc' v' src'| | | | | | | | | | | | | | ] eqn:Ep; try discriminate.
-      destruct (var_eqb v' v) eqn:Ev; [|discriminate]. inversion Efw; subst src'. clear Efw.
-      try rewrite Eb in Hsci; try rewrite Ep in Hsci. specialize (Hsci eq_refl). subst sc'. apply var_eqb_eq in Ev. subst v'.
-      destruct (Hprev p eq_refl) as ((pc0 & fo0 & vs0 & Hst) & Hsrc). destruct (Hsrc _ _ _ Ep) as [Hsrc1 Hsrc2].
-      destruct (step_store_src _ _ _ _ _ _ _ _ _ _ _ Ep Hst) as (w & Hw0 & Hw1). specialize (Hw1 Hsrc1).
-      destruct (load_after_store_delivers_stored F pc0 fo0 vs0 sc v src w p i (S pc0) fo vs Ep Eb Hw0 Hst) as (fr2 & Hl & Hg).
-      destruct (step_load_shape _ _ _ _ _ _ _ _ _ Eb Hstep) as (-> & w' & ->).
-      assert (w' = w).
-      { assert (Hfr : fr2 = rset fo (i_ref i) w').
-        { clear -Eb Hstep Hl. unfold step in Hstep, Hl. rewrite Eb in Hstep, Hl. destruct sc, v as [x|n]; try discriminate.
-          - destruct (slookup x (globals vs)); [|discriminate]. inversion Hstep. inversion Hl. congruence.
-          - destruct (nth_error (fargs fo) n); [|discriminate]. inversion Hstep. inversion Hl. congruence.
-          - destruct (slookup x (vars fo)); [|discriminate]. inversion Hstep. inversion Hl. congruence. }
-        rewrite Hfr, rget_rset_eq in Hg. congruence. }
-      subst w'.
-      set (r' := resolve (length m) m src). assert (Hr' : r' = subst_ref m src) by (apply (resolve_one m fo fp src I)).
-      assert (Hr'k : ~ In r' (keys m)).
-      { rewrite Hr'. destruct (in_dec Nat.eq_dec src (keys m)) as [Hin|Hn]; [apply (inv_fwd _ _ _ I src Hin)|rewrite (subst_ref_notin _ _ Hn); exact Hn]. }
-      assert (Hr'v : rlookup r' (regs fo) = Some w).
-      { rewrite Hr'. destruct (in_dec Nat.eq_dec src (keys m)) as [Hin|Hn].
-        - rewrite <- (proj1 (inv_fwd _ _ _ I src Hin)). unfold rget in Hw1. destruct (rlookup src (regs fo)); inversion Hw1; reflexivity.
-        - rewrite (subst_ref_notin _ _ Hn). unfold rget in Hw1. destruct (rlookup src (regs fo)); inversion Hw1; reflexivity. }
-      assert (Hr'i : r' <> i_ref i).
-      { rewrite Hr'. destruct (in_dec Nat.eq_dec src (keys m)) as [Hin|Hn].
-        - intro E. apply Ht. rewrite <- E. apply subst_ref_in. exact Hin.
-        - rewrite (subst_ref_notin _ _ Hn). intro E. apply Hsrc2. left. congruence. }
-      assert (I' : Inv (m ++ [(i_ref i, r')]) (rset fo (i_ref i) w) fp).
-      { constructor; cbn [rset regs vars fargs]; try apply I.
-        - intros q Hq. unfold keys in Hq. rewrite map_app in Hq. cbn in Hq.
-          assert (q <> i_ref i) by (intro; subst; apply Hq; apply in_or_app; right; left; reflexivity).
-          rewrite rlookup_update_other by assumption. apply (inv_same _ _ _ I). intro; apply Hq; apply in_or_app; left; assumption.
-        - intros q Hq. unfold keys in Hq. rewrite map_app in Hq. apply in_app_or in Hq as [Hq|Hq]; [|cbn in Hq; destruct Hq as [<-|[]]].
-          + assert (Hs : subst_ref (m ++ [(i_ref i, r')]) q = subst_ref m q).
-            { unfold subst_ref. rewrite (find_app_some' m _ q Hq). reflexivity. }
-            rewrite Hs. destruct (inv_fwd _ _ _ I q Hq) as [H1 H2]. split.
-            * assert (q <> i_ref i) by (intro; subst; contradiction).
-              assert (subst_ref m q <> i_ref i) by (intro E; apply Ht; rewrite <- E; apply subst_ref_in; exact Hq).
-              rewrite !rlookup_update_other by assumption. exact H1.
-            * unfold keys. rewrite map_app. intro X. apply in_app_or in X as [X|[X|[]]]; [contradiction|].
-              apply Ht. cbn in X. rewrite X. apply subst_ref_in. exact Hq.
-          + assert (Hs : subst_ref (m ++ [(i_ref i, r')]) (i_ref i) = r').
-            { unfold subst_ref. rewrite (find_app_none' _ _ _ Hk). cbn. rewrite Nat.eqb_refl. reflexivity. }
-            rewrite Hs. split.
-            * rewrite rlookup_update_same. rewrite rlookup_update_other by exact Hr'i. symmetry. exact Hr'v.
-            * unfold keys. rewrite map_app. intro X. apply in_app_or in X as [X|[X|[]]]; [contradiction|]. cbn in X. congruence. }
-      apply (IH (Some i) (m ++ [(i_ref i, r')]) (S pc) pc' (rset fo (i_ref i) w) fp vs fo1 vs1 Hrest I' Hnbr Hndr); auto.
-      intros j Hj. destruct (Hfresh j (or_intror Hj)) as [Hjk Hjt]. unfold keys, targets. rewrite !map_app. cbn. split.
-      * intro X. apply in_app_or in X as [X|[X|[]]]; [contradiction|]. apply Hni. rewrite X. apply in_map. exact Hj.
-      * intro X. apply in_app_or in X as [X|[X|[]]]; [contradiction|].
-        (* the forwarded source (or its earlier replacement) is not defined later *)
-        rewrite Hr' in X. destruct (in_dec Nat.eq_dec src (keys m)) as [Hin|Hn].
-        -- apply Hjt. rewrite <- X. apply subst_ref_in. exact Hin.
-        -- rewrite (subst_ref_notin _ _ Hn) in X. apply Hsrc2. right. rewrite X. apply in_map. exact Hj.
-    + (* an instruction that stays: renamed operands *)
-      destruct (step_subst F F' pc pc' m fo fp vs i fo' vs' I Hnbi Hk Ht Hstep) as (fp' & Hstep' & I').
-      destruct (IH (Some i) m (S pc) (S pc') fo' fp' vs' fo1 vs1 Hrest I' Hnbr Hndr) as (fp1 & Hr1 & I1); auto.
-      { intros j Hj. apply Hfresh. right. exact Hj. }
-      exists fp1. split; [econstructor; eassumption|exact I1].
-Qed.
-
-(** ** the emitted code is what the pass produces: [apply_block] with the final map *)
 Lemma las_map_grows : forall code prev m, exists d, las_map prev code m = m ++ d /\ forall k, In k (keys d) -> In k (map i_ref code).
 Proof.
   induction code as [|i r IH]; intros prev m; cbn [las_map].
@@ -336,6 +259,114 @@ Proof.
     + destruct (IH (Some i) m) as (d & Hd & Hk). exists d. split; [exact Hd|]. intros k Hin. right. apply Hk. exact Hin.
 Qed.
 
+(** the members of [D] among the references of the code are exactly the loads the pass will remove, and an operand in
+    [D] is one of those, already removed or still to come *)
+Definition dead_ok (D : list nat) (prev : option instr) (code : list instr) (m : list (nat * nat)) : Prop :=
+  (forall q, In q D -> In q (map i_ref code) -> In q (keys (las_map prev code m))) /\
+  (forall i o, In i code -> In o (operands (i_body i)) -> In o D -> In o (keys m) \/ In o (map i_ref code)).
+
+Lemma las_code_sound F F' D : forall code prev m pc pc' fo fp vs fo1 vs1,
+  sruns F pc code fo vs fo1 vs1 -> Inv m D fo fp ->
+  forallb (fun i => negb (is_branch i)) code = true -> NoDup (map i_ref code) -> fresh_for code m ->
+  operands_earlier code -> scopes_agree prev code -> dead_ok D prev code m ->
+  (forall p, prev = Some p -> (exists pc0 fo0 vs0, step F pc0 fo0 vs0 p = StNext (S pc0) fo vs) /\
+                              (forall sc v src, i_body p = IStore sc v src -> src <> i_ref p /\ ~ In src (map i_ref code) /\ readable m D src)) ->
+  exists fp1, sruns F' pc' (las_code prev code m) fp vs fp1 vs1 /\ Inv (las_map prev code m) D fo1 fp1.
+Proof.
+  induction code as [|i r IH]; intros prev m pc pc' fo fp vs fo1 vs1 Hrun I Hnb Hnd Hfresh Hop Hsc Hdead Hprev.
+  - inversion Hrun; subst. exists fp. split; [constructor|exact I].
+  - inversion Hrun as [|? ? ? ? ? fo' vs' ? ? Hstep Hrest]; subst. cbn [forallb] in Hnb. apply andb_prop in Hnb as [Hnbi Hnbr]. apply negb_true_iff in Hnbi.
+    inversion Hnd as [|? ? Hni Hndr]; subst. destruct Hop as [Hopi Hopr]. cbn [scopes_agree] in Hsc. destruct Hsc as [Hsci Hscr].
+    destruct (Hfresh i (or_introl eq_refl)) as [Hk Ht].
+    assert (Hread : forall o, In o (operands (i_body i)) -> readable m D o).
+    { intros o Ho. destruct (in_dec Nat.eq_dec o D) as [HoD|HoD]; [|right; exact HoD].
+      destruct (proj2 Hdead i o (or_introl eq_refl) Ho HoD) as [X|X]; [left; exact X|exfalso; apply (Hopi o Ho); exact X]. }
+    assert (Hprev' : forall m', (forall k, In k (keys m) -> In k (keys m')) -> forall p, Some i = Some p -> (exists pc0 fo0 vs0, step F pc0 fo0 vs0 p = StNext (S pc0) fo' vs') /\
+                                   (forall sc v src, i_body p = IStore sc v src -> src <> i_ref p /\ ~ In src (map i_ref r) /\ readable m' D src)).
+    { intros m' Hm' p Hp. inversion Hp; subst p. split; [exists pc, fo, vs; exact Hstep|].
+      intros sc v src Hb. assert (Ho : In src (operands (i_body i))) by (rewrite Hb; left; reflexivity).
+      pose proof (Hread src Ho) as Hrs. specialize (Hopi src Ho). cbn [map] in Hopi.
+      split; [intro E; apply Hopi; left; congruence|]. split; [intro E; apply Hopi; right; exact E|].
+      destruct Hrs as [X|X]; [left; apply Hm'; exact X|right; exact X]. }
+    destruct Hdead as [HD HO]. cbn [las_code las_map] in *. revert HD. destruct (forwardable prev i) as [src|] eqn:Efw; intros HD.
+    + (* a forwarded load: the optimised code does nothing *)
+      unfold forwardable in Efw. destruct (i_body i) as [sc v| | | | | | | | | | | | | | | ] eqn:Eb; try discriminate.
+      destruct prev as [p|]; [|discriminate]. destruct (i_body p) as [|sc' v' src'| | | | | | | | | | | | | | ] eqn:Ep; try discriminate.
+      destruct (var_eqb v' v) eqn:Ev; [|discriminate]. inversion Efw; subst src'. clear Efw.
+      try rewrite Eb in Hsci; try rewrite Ep in Hsci. specialize (Hsci eq_refl). subst sc'. apply var_eqb_eq in Ev. subst v'.
+      destruct (Hprev p eq_refl) as ((pc0 & fo0 & vs0 & Hst) & Hsrc). destruct (Hsrc _ _ _ Ep) as (Hsrc1 & Hsrc2 & Hsrc3).
+      destruct (step_store_src _ _ _ _ _ _ _ _ _ _ _ Ep Hst) as (w & Hw0 & Hw1). specialize (Hw1 Hsrc1).
+      destruct (load_after_store_delivers_stored F pc0 fo0 vs0 sc v src w p i (S pc0) fo vs Ep Eb Hw0 Hst) as (fr2 & Hl & Hg).
+      destruct (step_load_shape _ _ _ _ _ _ _ _ _ Eb Hstep) as (-> & w' & ->).
+      assert (w' = w).
+      { assert (Hfr : fr2 = rset fo (i_ref i) w').
+        { clear -Eb Hstep Hl. unfold step in Hstep, Hl. rewrite Eb in Hstep, Hl. destruct sc, v as [x|n]; try discriminate.
+          - destruct (slookup x (globals vs)); [|discriminate]. inversion Hstep. inversion Hl. congruence.
+          - destruct (nth_error (fargs fo) n); [|discriminate]. inversion Hstep. inversion Hl. congruence.
+          - destruct (slookup x (vars fo)); [|discriminate]. inversion Hstep. inversion Hl. congruence. }
+        rewrite Hfr, rget_rset_eq in Hg. congruence. }
+      subst w'.
+      set (r' := resolve (length m) m src). assert (Hr' : r' = subst_ref m src) by (apply (resolve_one m D fo fp src I)).
+      assert (Hr'k : ~ In r' (keys m)).
+      { rewrite Hr'. destruct (in_dec Nat.eq_dec src (keys m)) as [Hin|Hn]; [apply (inv_fwd _ _ _ _ I src Hin)|rewrite (subst_ref_notin _ _ Hn); exact Hn]. }
+      assert (Hr'D : ~ In r' D).
+      { rewrite Hr'. destruct (in_dec Nat.eq_dec src (keys m)) as [Hin|Hn]; [apply (inv_fwd _ _ _ _ I src Hin)|]. rewrite (subst_ref_notin _ _ Hn). destruct Hsrc3 as [X|X]; [contradiction|exact X]. }
+      assert (Hr'v : rlookup r' (regs fo) = Some w).
+      { rewrite Hr'. destruct (in_dec Nat.eq_dec src (keys m)) as [Hin|Hn].
+        - rewrite <- (proj1 (inv_fwd _ _ _ _ I src Hin)). unfold rget in Hw1. destruct (rlookup src (regs fo)); inversion Hw1; reflexivity.
+        - rewrite (subst_ref_notin _ _ Hn). unfold rget in Hw1. destruct (rlookup src (regs fo)); inversion Hw1; reflexivity. }
+      assert (Hr'i : r' <> i_ref i).
+      { rewrite Hr'. destruct (in_dec Nat.eq_dec src (keys m)) as [Hin|Hn].
+        - intro E. apply Ht. rewrite <- E. apply subst_ref_in. exact Hin.
+        - rewrite (subst_ref_notin _ _ Hn). intro E. apply Hsrc2. left. congruence. }
+      assert (I' : Inv (m ++ [(i_ref i, r')]) D (rset fo (i_ref i) w) fp).
+      { constructor; cbn [rset regs vars fargs]; try apply I.
+        - intros q Hq HqD. unfold keys in Hq. rewrite map_app in Hq. cbn in Hq.
+          assert (q <> i_ref i) by (intro; subst; apply Hq; apply in_or_app; right; left; reflexivity).
+          rewrite rlookup_update_other by assumption. apply (inv_same _ _ _ _ I); [|exact HqD]. intro; apply Hq; apply in_or_app; left; assumption.
+        - intros q Hq. unfold keys in Hq. rewrite map_app in Hq. apply in_app_or in Hq as [Hq|Hq]; [|cbn in Hq; destruct Hq as [<-|[]]].
+          + assert (Hs : subst_ref (m ++ [(i_ref i, r')]) q = subst_ref m q).
+            { unfold subst_ref. rewrite (find_app_some' m _ q Hq). reflexivity. }
+            rewrite Hs. destruct (inv_fwd _ _ _ _ I q Hq) as (H1 & H2 & H3). split; [|split; [|exact H3]].
+            * assert (q <> i_ref i) by (intro; subst; contradiction).
+              assert (subst_ref m q <> i_ref i) by (intro E; apply Ht; rewrite <- E; apply subst_ref_in; exact Hq).
+              rewrite !rlookup_update_other by assumption. exact H1.
+            * unfold keys. rewrite map_app. intro X. apply in_app_or in X as [X|[X|[]]]; [contradiction|].
+              apply Ht. cbn in X. rewrite X. apply subst_ref_in. exact Hq.
+          + assert (Hs : subst_ref (m ++ [(i_ref i, r')]) (i_ref i) = r').
+            { unfold subst_ref. rewrite (find_app_none' _ _ _ Hk). cbn. rewrite Nat.eqb_refl. reflexivity. }
+            rewrite Hs. split; [|split; [|exact Hr'D]].
+            * rewrite rlookup_update_same. rewrite rlookup_update_other by exact Hr'i. symmetry. exact Hr'v.
+            * unfold keys. rewrite map_app. intro X. apply in_app_or in X as [X|[X|[]]]; [contradiction|]. cbn in X. congruence. }
+      apply (IH (Some i) (m ++ [(i_ref i, r')]) (S pc) pc' (rset fo (i_ref i) w) fp vs fo1 vs1 Hrest I' Hnbr Hndr); auto.
+      * intros j Hj. destruct (Hfresh j (or_intror Hj)) as [Hjk Hjt]. unfold keys, targets. rewrite !map_app. cbn. split.
+        -- intro X. apply in_app_or in X as [X|[X|[]]]; [contradiction|]. apply Hni. rewrite X. apply in_map. exact Hj.
+        -- intro X. apply in_app_or in X as [X|[X|[]]]; [contradiction|].
+           (* the forwarded source (or its earlier replacement) is not defined later *)
+           rewrite Hr' in X. destruct (in_dec Nat.eq_dec src (keys m)) as [Hin|Hn].
+           ++ apply Hjt. rewrite <- X. apply subst_ref_in. exact Hin.
+           ++ rewrite (subst_ref_notin _ _ Hn) in X. apply Hsrc2. right. rewrite X. apply in_map. exact Hj.
+      * split.
+        -- intros q HqD Hq. apply HD; [exact HqD|right; exact Hq].
+        -- intros j o Hj Ho HoD. destruct (HO j o (or_intror Hj) Ho HoD) as [X|[X|X]].
+           ++ left. unfold keys. rewrite map_app. apply in_or_app. left. exact X.
+           ++ left. unfold keys. rewrite map_app. apply in_or_app. right. left. exact X.
+           ++ right. exact X.
+      * apply Hprev'. intros k Hk'. unfold keys. rewrite map_app. apply in_or_app. left. exact Hk'.
+    + (* an instruction that stays: renamed operands *)
+      destruct (step_subst F F' pc pc' m D fo fp vs i fo' vs' I Hnbi Hk Ht Hread Hstep) as (fp' & Hstep' & I').
+      destruct (IH (Some i) m (S pc) (S pc') fo' fp' vs' fo1 vs1 Hrest I' Hnbr Hndr) as (fp1 & Hr1 & I1); auto.
+      { intros j Hj. apply Hfresh. right. exact Hj. }
+      { split.
+        - intros q HqD Hq. apply HD; [exact HqD|right; exact Hq].
+        - intros j o Hj Ho HoD. destruct (HO j o (or_intror Hj) Ho HoD) as [X|[X|X]]; [left; exact X| |right; exact X].
+          exfalso. subst o. specialize (HD (i_ref i) HoD (or_introl eq_refl)).
+          destruct (las_map_grows r (Some i) m) as (d & Hd & Hkd). rewrite Hd in HD. unfold keys in HD. rewrite map_app in HD. apply in_app_or in HD as [X|X]; [exact (Hk X)|].
+          apply Hni. apply Hkd. exact X. }
+      exists fp1. split; [econstructor; eassumption|exact I1].
+Qed.
+
+(** ** the emitted code is what the pass produces: [apply_block] with the final map *)
 Lemma subst_ref_app m d o : ~ In o (keys d) -> subst_ref (m ++ d) o = subst_ref m o.
 Proof.
   intros H. unfold subst_ref. destruct (in_dec Nat.eq_dec o (keys m)) as [Hin|Hn].
@@ -402,13 +433,14 @@ Theorem forwarding_sound_on_straight_line_code : forall (F F' : ifunc) code pc p
                forall r, ~ In r (keys m) -> rlookup r (regs fr1') = rlookup r (regs fr1).
 Proof.
   intros F F' code pc pc' fr vs fr1 vs1 Hnb Hnd Hop Hsc Hrun m.
-  assert (I0 : Inv [] fr fr) by (constructor; [reflexivity|reflexivity|reflexivity|intros r []]).
-  destruct (las_code_sound F F' code None [] pc pc' fr fr vs fr1 vs1 Hrun I0 Hnb Hnd) as (fp1 & Hr & I1); auto.
+  assert (I0 : Inv [] [] fr fr) by (constructor; [reflexivity|reflexivity|reflexivity|intros r []]).
+  destruct (las_code_sound F F' [] code None [] pc pc' fr fr vs fr1 vs1 Hrun I0 Hnb Hnd) as (fp1 & Hr & I1); auto.
   - intros i _. split; intros [].
+  - split; [intros q []|intros i o _ _ []].
   - intros p Hp. discriminate.
   - destruct (las_map_grows code None []) as (d & Hd & Hk).
     exists fp1. unfold m. rewrite las_scan_map. rewrite (apply_block_las code None [] Hnb Hnd (fun _ _ H => H) Hop _ d eq_refl Hd Hk).
-    split; [exact Hr|]. split; [apply I1|]. split; [apply I1|]. intros r Hr'. apply (inv_same _ _ _ I1). exact Hr'.
+    split; [exact Hr|]. split; [apply I1|]. split; [apply I1|]. intros r Hr'. apply (inv_same _ _ _ _ I1); [exact Hr'|intros []].
 Qed.
 
 (** ** whole single-block functions: the optimised function returns the same value and leaves the same state *)
@@ -502,7 +534,7 @@ Proof.
   assert (Hflat' : flat_code F' = [] ++ las_code None code [] ++ [subst_instr (las_map None code []) ret]).
   { unfold flat_code, F', opt_load_after_store. cbn [fn_blocks]. rewrite Hb. cbn [length las_blocks map app flat_map b_code b_ref]. rewrite app_nil_r.
     rewrite las_scan_map. rewrite (apply_block_las (code ++ [ret]) None [] Hnb Hnd (fun _ _ H => H) Hop _ d eq_refl Hd Hk). exact Hlc. }
-  assert (I0 : Inv [] fr fr) by (constructor; [reflexivity|reflexivity|reflexivity|intros r []]).
+  assert (I0 : Inv [] [] fr fr) by (constructor; [reflexivity|reflexivity|reflexivity|intros r []]).
   assert (Hnbc : forallb (fun i => negb (is_branch i)) code = true) by (rewrite forallb_app in Hnb; apply andb_prop in Hnb as [H _]; exact H).
   assert (Hndc : NoDup (map i_ref code)).
   { clear -Hnd. rewrite map_app in Hnd. induction (map i_ref code) as [|a l IH]; cbn in *; [constructor|]. inversion Hnd; subst. constructor.
@@ -511,8 +543,9 @@ Proof.
   assert (Hopc : operands_earlier code).
   { clear -Hop. induction code as [|i r IH]; cbn in *; [exact I|]. destruct Hop as [H1 H2]. split; [|apply IH; exact H2].
     intros o Ho X. apply (H1 o Ho). destruct X as [X|X]; [left; exact X|right; rewrite map_app; apply in_or_app; left; exact X]. }
-  destruct (las_code_sound F F' code None [] 0 0 fr fr vs fr1 vs' Hs I0 Hnbc Hndc) as (fp1 & Hs' & I1); auto.
+  destruct (las_code_sound F F' [] code None [] 0 0 fr fr vs fr1 vs' Hs I0 Hnbc Hndc) as (fp1 & Hs' & I1); auto.
   { intros i _. split; intros []. }
+  { split; [intros q []|intros i o _ _ []]. }
   { intros p Hp. discriminate. }
   assert (Hlen : length (las_code None code []) <= length code).
   { clear. generalize (@None instr) (@nil (nat * nat)). induction code as [|i r IH]; intros prev m; cbn; [lia|]. destruct (forwardable prev i); cbn; specialize (IH (Some i)); [specialize (IH (m ++ [(i_ref i, resolve (length m) m n)]))|specialize (IH m)]; lia. }
@@ -522,6 +555,6 @@ Proof.
     by (rewrite Hflat'; cbn [app]; rewrite nth_error_app2 by lia; rewrite Nat.sub_diag; reflexivity).
   rewrite En'. unfold step. cbn [subst_instr i_body]. rewrite Hret. cbn [subst_body].
   destruct rv as [r|]; cbn [option_map].
-  - rewrite (rget_subst _ _ _ r I1). destruct (rget fr1 r) as [w0| |]; cbn [lift] in *; try discriminate. exact Hr.
+  - rewrite (rget_subst _ _ _ _ r I1) by (right; intros []). destruct (rget fr1 r) as [w0| |]; cbn [lift] in *; try discriminate. exact Hr.
   - exact Hr.
 Qed.
